@@ -339,7 +339,10 @@ def main(argv=None):
     if harness:
         print("HARNESS-ERROR property=%s %s" % (pid, harness))
         return EXIT_HARNESS
-    if tot["det_mismatch"]:
+    if tot["det_mismatch"] and not tot["viols"]:
+        # same scenario, same process, different event log and no oracle fired: either the harness is not deterministic
+        # (selftest/determinism.sh says it is, on the unchanged tree) or the library keeps state between uses in a way no
+        # oracle of this property sees. Never a pass.
         print("HARNESS-ERROR property=%s non-deterministic runs (same scenario, different digest): %s" % (pid, tot["det_mismatch"][:10]))
         return EXIT_HARNESS
     if tot["n"] == 0:
